@@ -1,4 +1,5 @@
 import Gearpy.Proofs.Solver
+import Gearpy.Proofs.UnitStep
 /-!
 # C03 — equation of motion and time-step update of the output element
 
@@ -10,6 +11,10 @@ import Gearpy.Proofs.Solver
   run alike) the speed advances by the previously recorded acceleration times `dt` — and is
   recorded as `0` exactly when self-locking holds the powertrain at the new instant — and the
   position advances by that advanced speed times `dt` (`StepRel`, `loop_steps`, `run_steps`).
+* `integrate_units`, `acceleration_units`, `inertia_units`: the code performs these updates with
+  unit-aware operators on quantities (`speed += acceleration * dt`, `torque / inertia`, inertia
+  reduction `J * ratio + J_i`); whatever units the inertias, `dt`, the initial position and speed are
+  expressed in, the SI reading of the unit-level result is the SI-level model's result.
 -/
 
 namespace Gearpy.C03
@@ -140,6 +145,31 @@ theorem run_steps (c : Cfg) (dt : Q) (n : Nat) (stop) (s s' : St)
       rw [hr] at hs
       simp only [hnil, List.nil_append, List.getLast?_singleton, Option.toList_some, List.singleton_append] at hs ⊢
       simpa using hs
+
+/-- `_time_integration` computed on quantities in any units = the SI-level `integrate` -/
+theorem integrate_units {T : Tbl} (g : T.Good) (pos speed acc dt p v : Qty) (s : St)
+    (h : integrateU T pos speed acc dt = .ok (p, v))
+    (hs : s.pos = siMag T pos ∧ s.speed = siMag T speed ∧ s.acc = siMag T acc) :
+    (integrate s (siMag T dt)).pos = siMag T p ∧ (integrate s (siMag T dt)).speed = siMag T v := by
+  obtain ⟨h1, h2⟩ := integrateU_si g pos speed acc dt p v h
+  obtain ⟨e1, e2, e3⟩ := hs
+  simp only [integrate, e1, e2, e3]
+  exact ⟨h2.symm, h1.symm⟩
+
+/-- `torque / inertia` on quantities = the SI quotient -/
+theorem acceleration_units {T : Tbl} (g : T.Good) (torque inertia r : Qty)
+    (h : accelerationU T torque inertia = .ok r) : siMag T r = siMag T torque / siMag T inertia :=
+  accelerationU_si g torque inertia r h
+
+/-- one step of the inertia reduction on quantities (`J *= ratio; J += J_i`, `InertiaMoment`
+    operators) = the SI-level step, for inertias given in any inertia unit -/
+theorem inertia_units {T : Tbl} (g : T.Good) (Jrun Ji x r : Qty) (ratio : Q)
+    (h1 : mul T Jrun (.n ratio) = .ok (.q x)) (h2 : add T x (.q Ji) = .ok (.q r)) :
+    siMag T r = siMag T Jrun * ratio + siMag T Ji := by
+  have e1 := C06.mul_si g Jrun (.n ratio) x h1
+  have e2 := C06.add_si g x Ji r h2
+  simp only [C06.valSI] at e1
+  rw [e2, e1]
 
 /-! ### non-vacuity: the relation holds on a concrete two-step history -/
 example : StepRel (1/2) ⟨0, [2], [1], [4], [], [], [], 1, none, false⟩ ⟨1/2, [7/2], [3], [0], [], [], [], 1, none, false⟩ := by
